@@ -1,9 +1,11 @@
 // C10 harness (build tag faketime): taskx.Queue.SendDelayed under the Go runtime's virtual clock.
 // The package-level delayed queue starts its 1 s ticker at process start, so its ticks are at whole virtual seconds.
 //
-// script:  c10 end <t> Q <cap0>:<start0> <cap1>:<start1> ... | <q> <d> <t> ; <q> <d> <t> ; ...
+// script:  c10 end <t> Q <cap0>:<start0>[:<close0>] <cap1>:<start1>[:<close1>] ... | <q> <d> <t> ; <q> <d> <t> ; ...
 //   one sequential sender calls Queue(q).SendDelayed(d ns, handler) at virtual instant t (ns relative to the scenario
-//   start, which is a tick instant); queue i has capacity cap_i; its consumer starts receiving at instant start_i.
+//   start, which is a tick instant); queue i has capacity cap_i; its consumer starts receiving at instant start_i;
+//   with a third field the queue's close channel is closed at instant close_i (pending delayed tasks for it are then
+//   consumed by SendCallback's closeChan branch).
 // observation:  Q0 idx@t idx@t ... | Q1 ... | E ok      (arrival sequence per queue: request index @ virtual instant)
 package main
 
@@ -37,16 +39,21 @@ func exec(c *hx.Ctx, line string) string {
 	}
 	endT, _ := strconv.ParseInt(h[2], 10, 64)
 	var caps []int
-	var starts []int64
+	var starts, closes []int64
 	for _, w := range h[4:] {
 		cs := strings.Split(w, ":")
-		if len(cs) != 2 {
+		if len(cs) != 2 && len(cs) != 3 {
 			return "bad-script"
 		}
 		cp, _ := strconv.Atoi(cs[0])
 		st, _ := strconv.ParseInt(cs[1], 10, 64)
+		cl := int64(-1)
+		if len(cs) == 3 {
+			cl, _ = strconv.ParseInt(cs[2], 10, 64)
+		}
 		caps = append(caps, cp)
 		starts = append(starts, st)
+		closes = append(closes, cl)
 	}
 	var reqs []req
 	for _, op := range strings.Split(parts[1], " ; ") {
@@ -89,7 +96,14 @@ func exec(c *hx.Ctx, line string) string {
 		expected[r.q]++
 	}
 	for i := range caps {
-		queues[i] = taskx.NewQueue(taskx.WithSize(caps[i]), taskx.WithErrorLogger(func(format string, args ...any) {}))
+		cc := make(chan struct{})
+		queues[i] = taskx.NewQueue(taskx.WithSize(caps[i]), taskx.WithCloseChan(cc), taskx.WithErrorLogger(func(format string, args ...any) {}))
+		if closes[i] >= 0 {
+			go func(i int) {
+				sleepUntil(closes[i])
+				close(cc)
+			}(i)
+		}
 		go func(i int) {
 			sleepUntil(starts[i])
 			for {
@@ -99,7 +113,8 @@ func exec(c *hx.Ctx, line string) string {
 					got[i].Add(1)
 				case <-quit:
 					// leave only when nothing is outstanding for this queue: a late task must never block the global loop
-					if got[i].Load() >= expected[i] {
+					// (a closed queue never blocks the loop: its SendCallback leaves through the closeChan branch)
+					if got[i].Load() >= expected[i] || closes[i] >= 0 {
 						return
 					}
 					_ = (<-queues[i].C).Do(nil)
